@@ -1,7 +1,7 @@
 (** * C16 - deterministic evaluation order and first-failure reporting.
     Property theorems only (proofs: Proofs/CheckerFrame.v, CheckerProps.v, CheckerCount.v;
     order of inherited lists: Props/C04.v). *)
-From ICV Require Import Base Bind Checker CheckerSpec CheckerFrame CheckerProps CheckerCount.
+From ICV Require Import Base Bind Checker CheckerSpec CheckerFrame CheckerProps CheckerCount CheckerCase CheckerOracle CheckerAfter.
 Open Scope string_scope.
 Open Scope list_scope.
 
@@ -80,3 +80,29 @@ Theorem C16_at_most_once m U s pre snaps post args kwargs st t r st' c :
   /\ count (error_hits (cid c)) t <= 1.
 Proof. exact (at_most_once m U s pre snaps post args kwargs st t r st' c). Qed.
 Print Assumptions C16_at_most_once.
+
+(** After a body that returned, every invariant that applies after it has been evaluated, each once and in the order
+    of the list - whether or not its condition takes the instance - and nothing else in the role of an invariant.  This
+    is the executable statement [spec_C16_after] that the check evaluates on the implementation's observation, proved
+    of the model's observation for all cases (no side condition). *)
+Theorem C16_every_invariant_after_a_return (c : CheckerCase.ccase) :
+  CheckerOracle.spec_C16_after c (fst (CheckerCase.run_case c)) (snd (CheckerCase.run_case c)) = true.
+Proof. exact (CheckerAfter.after_sound c). Qed.
+Print Assumptions C16_every_invariant_after_a_return.
+
+(** non-vacuity: a method of a class with two invariants, the second without parameters; five events, both after the body *)
+Example C16_after_nonvacuous :
+  snd (CheckerCase.run_case CheckerAfter.ex_after_case) = inl PNone
+  /\ existsb is_body (fst (CheckerCase.run_case CheckerAfter.ex_after_case)) = true
+  /\ CheckerOracle.inv_ids_after_body (fst (CheckerCase.run_case CheckerAfter.ex_after_case)) = [1; 2]%Z
+  /\ List.length (fst (CheckerCase.run_case CheckerAfter.ex_after_case)) = 5%nat.
+Proof. exact CheckerAfter.after_nonvacuous. Qed.
+
+(** The phases of a whole call, the invariants around it included: invariants, then preconditions, captures, the body
+    (once), postconditions, and the invariants again - never out of this order, for every case (the first conjunct
+    [phases_ok] of the executable statement [spec_C16], proved of the model's observation; no side condition).  The
+    five events of the example above pass through the phases 0, 0, 3, 5, 5. *)
+Theorem C16_phases_of_a_whole_call (c : CheckerCase.ccase) :
+  CheckerOracle.phases_ok 0 false (fst (CheckerCase.run_case c)) = true.
+Proof. exact (CheckerAfter.phases_sound c). Qed.
+Print Assumptions C16_phases_of_a_whole_call.
